@@ -225,6 +225,9 @@ fn history(family: &str, seed: u64, idx: usize, thorough: bool, out: &mut impl W
         if family == "skin" {
             cfg.registered.push(Ty::Skinned);
         }
+        if family == "fix" {
+            cfg.registered = vec![Ty::A, Ty::Transform, Ty::Visibility, Ty::PointLight, Ty::SpotLight, Ty::DirLight];
+        }
         cfg
     };
     let mut c = Ctx { s: Session::new(v6, cfg_for(family)), rng, next_h: 0, live: vec![], nclients };
@@ -367,6 +370,56 @@ fn history(family: &str, seed: u64, idx: usize, thorough: bool, out: &mut impl W
                 if !d.0 {
                     break;
                 }
+            }
+        }
+        "fix" => {
+            const KINDS: [Ty; 5] = [Ty::Transform, Ty::Visibility, Ty::PointLight, Ty::SpotLight, Ty::DirLight];
+            let origin = c.any_peer();
+            let e = c.fresh();
+            c.s.spawn(origin, e, true, &[], None);
+            let d = c.drain(40);
+            c.s.trace.push(json!({"ev":"drain","quiescent":d.0,"rounds":d.1}));
+            // subset and arrival order of the five kinds
+            let mut kinds: Vec<Ty> = KINDS.iter().cloned().filter(|_| c.rng.chance(1, 2)).collect();
+            if kinds.is_empty() {
+                kinds.push(*c.rng.pick(&KINDS));
+            }
+            for i in (1..kinds.len()).rev() {
+                let j = c.rng.below(i + 1);
+                kinds.swap(i, j);
+            }
+            // companions either all absent (a replica spawned by the network has none) or all already present
+            let present = c.rng.chance(1, 3);
+            c.s.trace.push(json!({"ev":"fix_case","h":e,"origin":origin,"kinds":kinds.iter().map(|k| k.name()).collect::<Vec<_>>(),"present":present}));
+            if present {
+                for p in 0..c.peers() {
+                    if p != origin {
+                        c.s.add_companions(p, e, &kinds);
+                    }
+                }
+            }
+            let mut n = 1;
+            for k in kinds.clone() {
+                c.s.write(origin, e, &CVal::new(k, n), &[]);
+                n += 1;
+                if c.rng.chance(1, 2) {
+                    c.random_steps();
+                }
+            }
+            c.lockstep(3);
+            // further writes to the same components at every frame offset 0..3
+            for k in kinds.clone() {
+                let off = c.rng.below(4);
+                c.lockstep(off);
+                let writer = if c.rng.chance(2, 3) { origin } else { c.any_peer() };
+                c.s.trace.push(json!({"ev":"phase","writer":writer,"h":e,"ty":k.name()}));
+                for _ in 0..c.rng.range(1, 3) {
+                    n += 1;
+                    c.s.write(writer, e, &CVal::new(k, n), &[]);
+                    if c.rng.chance(1, 2) { c.s.step(writer); } else { c.random_steps(); }
+                }
+                let d = c.drain(40);
+                c.s.trace.push(json!({"ev":"drain","quiescent":d.0,"rounds":d.1}));
             }
         }
         "skin" => {
